@@ -319,6 +319,69 @@ def run_operator(ctx):
                 ctx.violation('ResizingOperator', 'constant;explicit-range;affine', 'raises:' + type(e).__name__, message=str(e)[:200])
 
 
+def run_range_geometry(ctx):
+    """The range ResizingOperator builds for itself: same stride, and the grid of the smaller space is the window
+    [offset, offset + n) of the grid of the larger one - for every nodes_on_bdry choice handed through discr_kwargs
+    and for even, uneven and one-sided splits of the added / removed points."""
+    rng = ctx.rng('range-geometry')
+    idx = 10000
+    doms = [('1d', lambda nob: odl.uniform_discr(0.5, 2.0, 5, nodes_on_bdry=nob)),
+            ('2d', lambda nob: odl.uniform_discr([0, -1], [1, 3], (4, 3), nodes_on_bdry=nob))]
+    for (tag, mk), dom_nob, kw_nob, delta, offkind in itertools.product(
+            doms, (False, True), ('absent', True, False, 'mixed'), (+3, +2, -1, -2), ('default', 'left', 'right', 'uneven')):
+        idx += 1
+        if not ctx.mine(idx):
+            continue
+        sp = mk(dom_nob)
+        nd = sp.ndim
+        ran_shp = tuple(k + delta for k in sp.shape)
+        d = abs(delta)
+        offs_in = {'default': None, 'left': (0,) * nd, 'right': (d,) * nd, 'uneven': (d - 1,) * nd if d > 1 else (1,) * nd}[offkind]
+        if kw_nob == 'mixed':
+            nob = [(False, True)] if nd == 1 else [(True, False), (False, True)]
+        else:
+            nob = kw_nob
+        kw = {} if kw_nob == 'absent' else {'discr_kwargs': {'nodes_on_bdry': nob}}
+        if offs_in is not None:
+            kw['offset'] = offs_in
+        if min(ran_shp) == 1 and kw_nob not in ('absent', False):
+            continue    # a single node on both boundaries: zero-extent axis, no cell size
+        cfg = '%s;dom-bdry=%s;range-bdry=%s;offset=%s' % ('grow' if delta > 0 else 'shrink', dom_nob, kw_nob, offkind)
+        ctx.case('range-geometry;' + tag, cfg + ';%d' % delta)
+        ctx.ev('resizing-operator')
+        try:
+            op = odl.ResizingOperator(sp, ran_shp=ran_shp, **kw)
+        except Exception as e:
+            ctx.violation('ResizingOperator', cfg, 'ctor-raises:' + type(e).__name__, message=str(e)[:200])
+            continue
+        try:
+            ran = op.range
+            if ran.shape != ran_shp:
+                ctx.violation('ResizingOperator', cfg, 'range-shape')
+                continue
+            big, small = (ran, sp) if delta > 0 else (sp, ran)
+            for ax in range(nd):
+                o = op.offset[ax]
+                cb, cs = np.asarray(big.grid.coord_vectors[ax]), np.asarray(small.grid.coord_vectors[ax])
+                h = sp.grid.stride[ax]
+                if not np.allclose(np.diff(cb), h, rtol=1e-10) or not np.allclose(np.diff(cs), h, rtol=1e-10):
+                    ctx.violation('ResizingOperator', cfg, 'range-grid-stride-changed', got=float(np.diff(ran.grid.coord_vectors[ax])[0]), ref=float(h))
+                    break
+                if not np.allclose(cb[o:o + len(cs)], cs, rtol=0, atol=1e-10 * max(1.0, abs(h))):
+                    ctx.violation('ResizingOperator', cfg, 'grid-of-smaller-space-not-a-window-of-the-larger', axis=ax, offset=int(o))
+                    break
+                if not (ran.min_pt[ax] <= ran.grid.coord_vectors[ax][0] and ran.grid.coord_vectors[ax][-1] <= ran.max_pt[ax]):
+                    ctx.violation('ResizingOperator', cfg, 'range-grid-outside-range-domain')
+                    break
+            if delta > 0:
+                x = util.rand_element(sp, rng)
+                back = odl.ResizingOperator(ran, ran_shp=sp.shape, offset=op.offset)(op(x))
+                if not np.allclose(np.asarray(back), np.asarray(x), rtol=1e-12):
+                    ctx.violation('ResizingOperator', cfg, 'crop-back!=x')
+        except Exception as e:
+            ctx.violation('ResizingOperator', cfg, 'raises:' + type(e).__name__, message=str(e)[:200])
+
+
 def run(ctx):
     ctx.note('rule', 'one case = (old shape, new shape, offsets, pad mode, dtype/layout); the lattice per-axis '
                      '{grow, shrink, same} x offsets {0, max, interior} x 5 modes x ndim 1..3 is enumerated, plus seeded '
@@ -330,6 +393,7 @@ def run(ctx):
     cov.arm()
     run_resize_array(ctx)
     run_operator(ctx)
+    run_range_geometry(ctx)
     cov.disarm()
     n_exec, n_hit, unreached = cov.report()
     ctx.note('line_coverage', {'executable': n_exec, 'hit': n_hit})
